@@ -28,6 +28,15 @@ def tostr(v):
     return str(v)
 
 
+class ObjFrame:
+    """namespace frame standing for an object whose attributes are sites
+    (InstanceDict over an env.Obj): a miss falls through to outer frames"""
+
+    def __init__(self, name, attrs):
+        self.name, self.attrs = name, attrs
+        self.cache = {}
+
+
 class Model:
     def __init__(self, env, case, plain=None):
         self.env = env
@@ -41,6 +50,15 @@ class Model:
     # ---------------------------------------------------------- namespace
     def raw(self, name):
         for f in reversed(self.frames):
+            if isinstance(f, ObjFrame):
+                if name in f.attrs:
+                    if name in f.cache:
+                        return f.cache[name]
+                    v = self.invoke('%s.%s' % (f.name, name))
+                    if v is not E.UNDEF:
+                        f.cache[name] = v
+                        return v
+                continue
             if name in f:
                 return f[name]
         if name in self.plain:
@@ -200,7 +218,11 @@ class Model:
         return ''.join(out)
 
     def n_with(self, n):
-        self.frames.append(dict(n.get('binds', {})))
+        if n.get('objattrs') is not None:
+            self.ref(n['src'])
+            self.frames.append(ObjFrame(n['src']['site'], n['objattrs']))
+        else:
+            self.frames.append(dict(n.get('binds', {})))
         try:
             return self.body(n['body'])
         finally:
